@@ -377,20 +377,35 @@ func (r *InhibitRule) updateIndex(alert *types.Alert) {
 	// If the existing alert resolves after the new alert, do nothing.
 }
 
-// findEqualSourceAlert returns the source alert that matches the equal labels of the given label set.
-func (r *InhibitRule) findEqualSourceAlert(lset model.LabelSet, now time.Time) (*types.Alert, bool) {
+// findEqualSourceAlert returns a firing source alert that has the same equal
+// labels as the given label set. If excludeTwoSidedMatch is true, source alerts
+// that also match the target side of the rule are disregarded.
+func (r *InhibitRule) findEqualSourceAlert(lset model.LabelSet, excludeTwoSidedMatch bool, now time.Time) (*types.Alert, bool) {
 	equalsFP := r.fingerprintEquals(lset)
-	sourceFP, ok := r.sindex.Get(equalsFP)
-	if ok {
-		alert, err := r.scache.Get(sourceFP)
-		if err != nil {
-			return nil, false
+	inhibits := func(a *types.Alert) bool {
+		if a.ResolvedAt(now) {
+			return false
 		}
+		return !excludeTwoSidedMatch || !r.TargetMatchers.Matches(a.Labels)
+	}
 
-		if alert.ResolvedAt(now) {
-			return nil, false
+	if sourceFP, ok := r.sindex.Get(equalsFP); ok {
+		if alert, err := r.scache.Get(sourceFP); err == nil && inhibits(alert) {
+			return alert, true
 		}
+	}
 
+	// The index holds a single source alert per set of equal labels. If that
+	// one does not inhibit (it resolved, was collected, or is excluded as a
+	// two-sided match), another source alert with the same equal labels still
+	// may, so fall back to scanning the source cache.
+	for _, alert := range r.scache.List() {
+		if r.fingerprintEquals(alert.Labels) != equalsFP || !inhibits(alert) {
+			continue
+		}
+		if !excludeTwoSidedMatch {
+			r.sindex.Set(equalsFP, alert.Fingerprint())
+		}
 		return alert, true
 	}
 
@@ -399,8 +414,12 @@ func (r *InhibitRule) findEqualSourceAlert(lset model.LabelSet, now time.Time) (
 
 func (r *InhibitRule) gcCallback(alerts []*types.Alert) {
 	for _, a := range alerts {
-		fp := r.fingerprintEquals(a.Labels)
-		r.sindex.Delete(fp)
+		eq := r.fingerprintEquals(a.Labels)
+		// Only drop the entry if it points at the collected alert: another
+		// source alert with the same equal labels may be indexed by now.
+		if indexed, ok := r.sindex.Get(eq); ok && indexed == a.Fingerprint() {
+			r.sindex.Delete(eq)
+		}
 	}
 }
 
@@ -409,11 +428,8 @@ func (r *InhibitRule) gcCallback(alerts []*types.Alert) {
 // is returned. If excludeTwoSidedMatch is true, alerts that match both the
 // source and the target side of the rule are disregarded.
 func (r *InhibitRule) hasEqual(lset model.LabelSet, excludeTwoSidedMatch bool, now time.Time) (model.Fingerprint, bool) {
-	equal, found := r.findEqualSourceAlert(lset, now)
+	equal, found := r.findEqualSourceAlert(lset, excludeTwoSidedMatch, now)
 	if found {
-		if excludeTwoSidedMatch && r.TargetMatchers.Matches(equal.Labels) {
-			return model.Fingerprint(0), false
-		}
 		return equal.Fingerprint(), found
 	}
 
